@@ -298,7 +298,7 @@ def fit_scipy(
         elif jac is not True:
             try:
                 s = minimize(
-                    lambda x: float(fcn(x)),
+                    lambda x: float(f_g(x)[0]),  # same function as with jac=True: bound transform, grad_scale
                     x0,
                     method=method,
                     jac=jac,
